@@ -248,7 +248,7 @@ class ResAnalysis(object):
         nstates = 0
         while work:
             bid, pos, facts, holders, prevb, live = work.pop()
-            key = (bid, pos, facts, holders, prevb if f.blocks[bid].insts[-1].op == "ret" else -1, live)
+            key = (bid, pos, facts, holders, prevb if (f.blocks[bid].insts[-1].op == "ret" or f.blocks[bid].insts[0].op == "phi") else -1, live)
             if key in seen:
                 continue
             seen.add(key)
@@ -340,7 +340,15 @@ class ResAnalysis(object):
                 continue
             t = b.insts[-1]
             nf = frozenset(facts_m); nh = frozenset(holders_m)
-            if t.op == "br" and t.ops:
+            if t.op == "br" and t.ops and t.ops[0][0] == "v" and pos == 0 and f.inst[t.ops[0][1]].op == "phi" and f.inst[t.ops[0][1]].bb is b and \
+                    any(pb == prevb and o[0] == "c" for o, pb in zip(f.inst[t.ops[0][1]].ops, f.inst[t.ops[0][1]].inb)):
+                # short-circuit condition: a phi of constants is decided by the incoming edge
+                ph = f.inst[t.ops[0][1]]
+                cv = [o for o, pb in zip(ph.ops, ph.inb) if pb == prevb][0]
+                tg = t.tgt[0] if cv[1] != 0 else t.tgt[1]
+                if (bid, tg) not in dead:
+                    work.append((tg, 0, nf, nh, bid, live))
+            elif t.op == "br" and t.ops:
                 # null test of the resource
                 cc = _canon_cond(f, t.ops[0])
                 tgt_t, tgt_f = t.tgt
